@@ -78,13 +78,14 @@ example : LogWF exNode.log := by
 
 /-- **callback_once** (`__applyLogEntries`). The callbacks emitted are exactly `expectedCallbacks` of the
 applied entries — for each applied entry, in log order, each of its subscribers `(term, cb)` once:
-`(result, SUCCESS)` if `term` is the entry's term (result = value returned, or the exception instance for a
-raising command), `(None, DISCARDED)` otherwise.  Afterwards the applied indices have no subscribers left
+`(result, SUCCESS)` if `term` is the entry's term (result = value returned, the exception instance for a
+raising command, or — D71 — the "wrong version" exception for a VERSION entry below the enabled version),
+`(None, DISCARDED)` otherwise.  Afterwards the applied indices have no subscribers left
 (nothing can call them a second time) and all other indices keep theirs. -/
 theorem callback_once (c : Config) (s : NodeState) (now : Nat) (hwf : LogWF s.log)
     (hver : ¬ c.selfVer < s.enabledVer) (hlt : s.lastApplied < s.commit) :
     (applyEntries c s now).2.1.filter isCallback =
-      expectedCallbacks s.waiting s.sm
+      expectedCallbacks s.waiting s.sm s.enabledVer
         (applicable c (getEntries s.log (s.lastApplied + 1) (s.commit - s.lastApplied))) ∧
     (∀ e ∈ applicable c (getEntries s.log (s.lastApplied + 1) (s.commit - s.lastApplied)),
         subsOf (applyEntries c s now).1.waiting e.idx = []) ∧
@@ -163,5 +164,21 @@ batch gives what two separate batches gave -/
 example : (applyLoop exConf 7 (exNode.log.drop 1) { exNode with sm := [] }).1.sm =
     (applyLoop exConf 9 (exNode.log.drop 3)
       (applyLoop exConf 8 ((exNode.log.drop 1).take 2) { exNode with sm := [] }).1).1.sm := by decide
+
+/-- **enabledVer_mono** (D71). The enabled code version never decreases: not along the apply loop, not along a
+whole `_onTick`; a VERSION entry below the enabled version counts as applied, changes nothing and hands the
+"wrong version" exception to its SUCCESS subscribers. -/
+theorem enabledVer_mono (c : Config) (s : NodeState) (now rand : Nat) (es : List Entry) :
+    s.enabledVer ≤ (applyLoop c now es s).1.enabledVer ∧ s.enabledVer ≤ (applyEntries c s now).1.enabledVer ∧
+    s.enabledVer ≤ (tick c s now rand).1.enabledVer :=
+  ⟨applyLoop_enabledVer_mono c now es s, applyEntries_enabledVer_mono c s now, PSO.NodeTick.enabledVer_mono c s now rand⟩
+
+/-- a VERSION entry for version 0 while version 1 is enabled: applied (lastApplied moves), version stays 1, the
+subscriber gets `lowerVersion 0` with SUCCESS -/
+example :
+    let s := { exNode with enabledVer := 1, log := [⟨.noop, 1, 0⟩, ⟨.version 0, 2, 3⟩], commit := 2, waiting := [(2, [(3, 77)])] }
+    (applyEntries { exConf with selfVer := 1 } s 5).1.lastApplied = 2 ∧
+    (applyEntries { exConf with selfVer := 1 } s 5).1.enabledVer = 1 ∧
+    (applyEntries { exConf with selfVer := 1 } s 5).2.1 = [.callback 2 77 (.lowerVersion 0) .success] := by decide
 
 end PSO.C12
